@@ -139,8 +139,13 @@ pub enum RunEnd {
     NotFound,
     RequiredMissing,
     Panicked,
+    /// more than `STEP_LIMIT` phase entries: the case is outside the generators' bounded space
+    /// (only shrink candidates can get here) and is not judged
+    Budget,
     Other(String),
 }
+
+pub const STEP_LIMIT: u32 = 4000;
 
 pub type ExpLog = Vec<BTreeMap<String, Option<u64>>>;
 
@@ -151,6 +156,7 @@ pub struct Shared {
     pub trace: Mutex<Vec<Ev>>,
     counts: Mutex<BTreeMap<(u32, Phase), u32>>,
     cursors: Mutex<BTreeMap<u32, usize>>,
+    total: Mutex<u32>,
     fault: Option<Fault>,
     /// record `Snap` events
     snaps: bool,
@@ -162,6 +168,7 @@ impl Shared {
             trace: Mutex::new(Vec::new()),
             counts: Mutex::new(BTreeMap::new()),
             cursors: Mutex::new(BTreeMap::new()),
+            total: Mutex::new(0),
             fault,
             snaps,
         })
@@ -180,6 +187,14 @@ impl Shared {
         self.push(Ev::Enter { id, phase, occ });
         if self.fault == Some(Fault { id, phase, occ }) {
             return Err(eyre::eyre!("injected-fault id={id} phase={phase:?} occ={occ}"));
+        }
+        let total = {
+            let mut t = self.total.lock().unwrap();
+            *t += 1;
+            *t
+        };
+        if total > STEP_LIMIT {
+            return Err(eyre::eyre!("step-budget exhausted"));
         }
         Ok(())
     }
@@ -460,6 +475,9 @@ pub fn build_log_config(rules: &[Rule], sh: &Arc<Shared>) -> LogConfig<EP> {
 pub fn classify_error(e: &eyre::Report) -> RunEnd {
     for cause in e.chain() {
         let s = cause.to_string();
+        if s == "step-budget exhausted" {
+            return RunEnd::Budget;
+        }
         if let Some(rest) = s.strip_prefix("injected-fault id=") {
             // id=<id> phase=<phase> occ=<occ>
             let parts: Vec<&str> = rest.split(' ').collect();
@@ -497,6 +515,7 @@ pub enum MErr {
     NotFound,
     RequiredMissing,
     Panic,
+    Budget,
 }
 
 pub struct Interp<'p> {
@@ -513,6 +532,7 @@ pub struct Interp<'p> {
     pub probes: BTreeMap<&'static str, u64>,
     scope_depth: usize,
     loop_depth: usize,
+    total: u32,
 }
 
 type MRes<T> = Result<T, MErr>;
@@ -532,6 +552,7 @@ impl<'p> Interp<'p> {
             probes: BTreeMap::new(),
             scope_depth: 0,
             loop_depth: 0,
+            total: 0,
         };
         for op in &p.pre_ops {
             it.model.apply(op);
@@ -557,6 +578,10 @@ impl<'p> Interp<'p> {
             }
             return Err(MErr::Injected(id, phase, occ));
         }
+        self.total += 1;
+        if self.total > STEP_LIMIT {
+            return Err(MErr::Budget);
+        }
         Ok(())
     }
 
@@ -575,6 +600,7 @@ impl<'p> Interp<'p> {
                 RunEnd::RequiredMissing
             }
             Err(MErr::Panic) => RunEnd::Panicked,
+            Err(MErr::Budget) => RunEnd::Budget,
         }
     }
 
